@@ -489,7 +489,9 @@ namespace fixedmath
     [[ gnu::const, gnu::always_inline ]]
     constexpr fixed_t fixed_divisionf( fixed_t x, fixed_t y) noexcept
       {
-      if( fixed_likely(y.v != 0) )
+      // the dividend is scaled by 2^16, beyond +-2^47 that would drop bits (and could yield INT64_MIN / -1)
+      constexpr fixed_internal dividend_limit{ fixed_internal(1) << 47 };
+      if( fixed_likely(y.v != 0 && x.v < dividend_limit && x.v > -dividend_limit ) )
         {
         fixed_t result { as_fixed( (x << 16).v / y.v ) };
 //         if( fixed_likely( check_division_result(result)) )
